@@ -230,7 +230,16 @@ typedef int Long; typedef unsigned int uLong; typedef uLong uiolen; typedef doub
 /* members of SOLReader2 (one object) */
 int binary; NLW2_SOLReadResultCode readresult_; const char *stub_; int internal_rv_;
 int g_serror_calls;
-#define serror(...) (g_serror_calls = 1)
+/* serror(fmt, ...) formats with vsnprintf: the format must be a string of the source, never data (an error text built from a line of the
+   file or supplied by the handler).  g_data_obj points to the reader's error-text buffer. */
+const char *g_data_obj;
+static void vp_check_fmt(const char *fmt) {
+  __CPROVER_assert(g_data_obj == 0 || !__CPROVER_same_object(fmt, g_data_obj), "the printf-style format of an error report is not data from the file or the handler"); }
+#ifdef VP_CHECK_FMT      /* only where the harness binds g_data_obj (C14.CheckReader: the one call whose format is not a literal) */
+#define serror(fmt, ...) (vp_check_fmt(fmt), g_serror_calls = 1)
+#else
+#define serror(fmt, ...) (g_serror_calls = 1)
+#endif
 /* problem sizes from the NL header */
 int g_num_vars, g_num_algebraic_cons;
 int NumVars(void) { return g_num_vars; }
@@ -251,7 +260,7 @@ def report_fns():
 
 
 def checkreader_fn(contract=True):
-    c = ('__CPROVER_requires(__CPROVER_r_ok(rd, sizeof(VecReader)) && __CPROVER_w_ok(rr_p, sizeof(*rr_p))) '
+    c = ('__CPROVER_requires(__CPROVER_r_ok(rd, sizeof(VecReader)) && __CPROVER_w_ok(rr_p, sizeof(*rr_p)) && g_data_obj == rd->err_msg_) '
          '__CPROVER_ensures(__CPROVER_return_value == (rd->rr_ == NLW2_SOLRead_OK && rd->n_ == 0)) '
          '__CPROVER_ensures(!__CPROVER_return_value ==> *rr_p != NLW2_SOLRead_OK) '
          '__CPROVER_assigns(*rr_p, readresult_, g_serror_calls)')
@@ -264,12 +273,12 @@ def checkreader_fn(contract=True):
 
 def h_checkreader():
     parts = [PRE, ENUM, VR, MEMBERS] + report_fns() + [checkreader_fn(), '''
-void harness(void) { VP_INIT; VecReader vr; vr.n_ = nondet_int(); vr.rr_ = nondet_int(); vr.err_msg_ = vp_malloc(512);
+void harness(void) { VP_INIT; VecReader vr; vr.n_ = nondet_int(); vr.rr_ = nondet_int(); vr.err_msg_ = vp_malloc(512); g_data_obj = vr.err_msg_;
   __CPROVER_assume(vr.rr_ >= -1 && vr.rr_ <= 7);
   NLW2_SOLReadResultCode rr = nondet_int();
   CheckReader(&vr, &rr); VP_REACH("normal return"); }
 ''']
-    return Harness('C14.CheckReader', 'C14', parts, enforce='CheckReader',
+    return Harness('C14.CheckReader', 'C14', parts, enforce='CheckReader', defines=['VP_CHECK_FMT'],
                    note='a reader with an error or unread values always yields a non-OK result')
 
 
@@ -335,7 +344,7 @@ def gsufread_fn(contract=True):
     return Fn(HPP, r'NLW2_SOLReadResultCode SOLReader2<SOLHandler>::gsufread\(FILE\* f\)', 'NLW2_SOLReadResultCode gsufread(FILE *f)',
               contract=c if contract else '',
               subst=SUF_SUBST + [(r'strcpy\(SR\.name, buf\)', 'vp_strcpy_big(SR.name, buf)', 1),
-                                 (r'fgets\(s, se-s, f\)', 'vp_fgets_big(s, se-s, f)', 1),
+                                 (r'fgets\(s, ([^;]*?), f\)', r'vp_fgets_big(s, \1, f)', 1),      # the size expression is kept as written
                                  (r'memcpy\(s, buf, L\)', 'vp_memcpy_big(s, buf, L)', 1),
                                  (r'buf\[SR\.h\.namelen-1\] = 0;',
                                   'buf[SR.h.namelen-1] = 0; /* ghost */ g_nul_ptr = &buf[SR.h.namelen-1];', 1)],
